@@ -5,7 +5,7 @@ correspondence half: it corrupts real closed files and checks every reader call.
 import os, sys, importlib
 import vlib, proglib, crashlib
 
-PROP_FILES = ["Properties_C04_alg.v", "Properties_C04.v"]
+PROP_FILES = ["Properties_C04_alg.v", "Properties_C04_struct.v"]
 
 
 def small_program(rng, tier):
@@ -143,7 +143,7 @@ def acceptable(op, orig, got):
 
 
 def run(ctx):
-    prop_files = [f for f in PROP_FILES if os.path.exists(os.path.join(vlib.COQ, f))]
+    prop_files = vlib.listed_props(PROP_FILES)
     vlib.build(ctx, prop_files, variants=("plain",))
     rng = ctx.rng
     nprog = 2 if ctx.tier == "quick" else 4
